@@ -296,6 +296,95 @@ impl Subject for SliceRegion<ConsecutiveIndexPairs<StringRegion>, IndexOptimized
     fn reserve_pool(&mut self, _ks: &[u64]) {}
 }
 
+// Compositions in which items exist while no storage reports a used byte (empty strings under consecutive pairs,
+// zero-sized elements): "nothing used" must never be mistaken for "nothing stored".
+const OPTSTR: [Option<&str>; 4] = [None, Some(""), Some("a"), Some("é𝄞")];
+
+impl Subject for OptionRegion<ConsecutiveIndexPairs<StringRegion>> {
+    const NAME: &'static str = "OptionRegion<ConsecutiveIndexPairs<StringRegion>>";
+    const POOL: u64 = 4;
+    fn put(&mut self, k: u64) -> Self::Index {
+        self.push(OPTSTR[k as usize])
+    }
+    fn same(&self, i: Self::Index, k: u64) -> bool {
+        self.index(i) == OPTSTR[k as usize]
+    }
+    fn dump(&self, i: Self::Index) -> Vec<u8> {
+        match self.index(i) { None => vec![0], Some(x) => std::iter::once(1u8).chain(x.as_bytes().iter().copied()).collect() }
+    }
+    fn payload(k: u64) -> usize {
+        OPTSTR[k as usize].map(|x| x.len()).unwrap_or(0)
+    }
+    fn reserve_pool(&mut self, ks: &[u64]) {
+        self.reserve_items(ks.iter().map(|k| OPTSTR[*k as usize]));
+    }
+}
+
+const STRS4: [&str; 4] = ["", "a", "é𝄞", "hello"];
+
+impl Subject for StringRegion<ConsecutiveIndexPairs<OwnedRegion<u8>>> {
+    const NAME: &'static str = "StringRegion<ConsecutiveIndexPairs<OwnedRegion<u8>>>";
+    const POOL: u64 = 4;
+    fn put(&mut self, k: u64) -> Self::Index {
+        self.push(STRS4[k as usize])
+    }
+    fn same(&self, i: Self::Index, k: u64) -> bool {
+        self.index(i) == STRS4[k as usize]
+    }
+    fn dump(&self, i: Self::Index) -> Vec<u8> {
+        self.index(i).as_bytes().to_vec()
+    }
+    fn payload(k: u64) -> usize {
+        STRS4[k as usize].len()
+    }
+    fn reserve_pool(&mut self, ks: &[u64]) {
+        self.reserve_items(ks.iter().map(|k| STRS4[*k as usize]));
+    }
+}
+
+const UNITS: [&[()]; 4] = [&[], &[()], &[(), ()], &[(), (), (), (), ()]];
+
+impl Subject for OwnedRegion<()> {
+    const NAME: &'static str = "OwnedRegion<()>";
+    const POOL: u64 = 4;
+    fn put(&mut self, k: u64) -> Self::Index {
+        self.push(UNITS[k as usize])
+    }
+    fn same(&self, i: Self::Index, k: u64) -> bool {
+        self.index(i).len() == UNITS[k as usize].len()
+    }
+    fn dump(&self, i: Self::Index) -> Vec<u8> {
+        vec![self.index(i).len() as u8]
+    }
+    fn payload(_k: u64) -> usize {
+        0
+    }
+    fn reserve_pool(&mut self, ks: &[u64]) {
+        self.reserve_items(ks.iter().map(|k| UNITS[*k as usize]));
+    }
+}
+
+impl Subject for Vec<()> {
+    const NAME: &'static str = "Vec<()>";
+    const POOL: u64 = 2;
+    fn put(&mut self, _k: u64) -> Self::Index {
+        <Self as Push<()>>::push(self, ())
+    }
+    fn same(&self, i: Self::Index, _k: u64) -> bool {
+        *self.index(i) == ()
+    }
+    fn dump(&self, i: Self::Index) -> Vec<u8> {
+        let _ = self.index(i);
+        vec![]
+    }
+    fn payload(_k: u64) -> usize {
+        0
+    }
+    fn reserve_pool(&mut self, ks: &[u64]) {
+        self.reserve_items(ks.iter());
+    }
+}
+
 /// Read through the *reference* region of a twin comparison.  If the reference itself cannot be read (because some
 /// other property is broken in the tree under test), the comparison is not this property's business: `None`.
 fn ref_dump<S: Subject>(r: &S, i: S::Index) -> Option<Vec<u8>>
@@ -568,7 +657,7 @@ where
     for k in batch {
         let _ = src.put(*k);
     }
-    let mut r = match v[5] % 3 {
+    let mut r = match v[5] % 4 {
         0 => {
             // reserve_items on an already populated region
             let mut r = S::default();
@@ -582,7 +671,29 @@ where
             r.reserve_regions(std::iter::once(&src));
             r
         }
-        _ => S::merge_regions(std::iter::once(&src)),
+        2 => S::merge_regions(std::iter::once(&src)),
+        _ => {
+            // several source regions: their contents add up
+            let mut src2 = S::default();
+            for k in batch {
+                let _ = src2.put(*k);
+            }
+            let mut r = S::default();
+            prefill(&mut r, v);
+            if v[6] % 2 == 0 {
+                r.reserve_regions([&src, &src2, &src].into_iter());
+            } else {
+                r = S::merge_regions([&src, &src2, &src].into_iter());
+            }
+            let before = caps(&r);
+            for _ in 0..3 {
+                for k in batch {
+                    let _ = r.put(*k);
+                    vassert!(caps(&r) == before, "VF:presize.capacity_changed_while_absorbing_announced_items");
+                }
+            }
+            return;
+        }
     };
     let before = caps(&r);
     for k in batch {
@@ -592,22 +703,40 @@ where
     }
 }
 
-fn flatstack_merge_capacity(v: &[u64]) {
-    type FS = FlatStack<SliceRegion<MirrorRegion<u8>>>;
+fn merge_capacity_case<R>(v: &[u64], put: impl Fn(&mut FlatStack<R>, u64))
+where
+    R: Region + Default,
+{
     let batch = [v[1] % 4, v[2] % 4, v[3] % 4];
     let n = (v[4] % 4) as usize;
-    let mut src = FS::default();
-    for k in batch.iter().take(n) {
-        src.copy(BYTES[*k as usize]);
+    // one or two source stacks which together hold the announced contents
+    let mut src = <FlatStack<R>>::default();
+    let mut src2 = <FlatStack<R>>::default();
+    for (i, k) in batch.iter().take(n).enumerate() {
+        if v[5] == 1 && i % 2 == 1 {
+            put(&mut src2, *k);
+        } else {
+            put(&mut src, *k);
+        }
     }
-    let mut r = FS::merge_capacity(std::iter::once(&src));
+    let mut r = if v[5] == 1 { <FlatStack<R>>::merge_capacity([&src, &src2].into_iter()) } else { <FlatStack<R>>::merge_capacity(std::iter::once(&src)) };
+    vassert!(r.is_empty(), "VF:presize.flatstack_merge_not_empty");
     let before: Vec<usize> = collect_heap(|cb| r.heap_size(cb)).iter().map(|p| p.1).collect();
     for k in batch.iter().take(n) {
-        r.copy(BYTES[*k as usize]);
+        put(&mut r, *k);
         let now: Vec<usize> = collect_heap(|cb| r.heap_size(cb)).iter().map(|p| p.1).collect();
         vassert!(now == before, "VF:presize.flatstack_capacity_changed");
     }
     vassert!(r.len() == n, "VF:presize.flatstack_len");
+}
+fn flatstack_merge_capacity(v: &[u64]) {
+    match v[6] {
+        0 => merge_capacity_case::<SliceRegion<MirrorRegion<u8>>>(v, |fs, k| fs.copy(BYTES[k as usize])),
+        1 => merge_capacity_case::<MirrorRegion<u8>>(v, |fs, k| fs.copy(k as u8)),
+        2 => merge_capacity_case::<OptionRegion<MirrorRegion<u8>>>(v, |fs, k| fs.copy(if k == 0 { None } else { Some(k as u8) })),
+        3 => merge_capacity_case::<OwnedRegion<u8>>(v, |fs, k| fs.copy(BYTES[k as usize])),
+        _ => merge_capacity_case::<ResultRegion<MirrorRegion<u8>, OwnedRegion<u8>>>(v, |fs, k| fs.copy(if k % 2 == 0 { Ok(k as u8) } else { Err(BYTES[k as usize]) })),
+    }
 }
 
 // ---------------------------------------------------------------------------------------------------- C18 heap_size accounting
@@ -660,7 +789,11 @@ macro_rules! dispatch {
             9 => $f::<ConsecutiveIndexPairs<OwnedRegion<u8>>>($v),
             10 => $f::<CollapseSequence<ConsecutiveIndexPairs<StringRegion>>>($v),
             11 => $f::<SliceRegion<ConsecutiveIndexPairs<StringRegion>, IndexOptimized>>($v),
-            _ => $f::<ColumnsRegion<StringRegion>>($v),
+            12 => $f::<ColumnsRegion<StringRegion>>($v),
+            13 => $f::<OptionRegion<ConsecutiveIndexPairs<StringRegion>>>($v),
+            14 => $f::<StringRegion<ConsecutiveIndexPairs<OwnedRegion<u8>>>>($v),
+            15 => $f::<OwnedRegion<()>>($v),
+            _ => $f::<Vec<()>>($v),
         }
     };
 }
@@ -710,25 +843,25 @@ fn run_heap(v: &[u64]) {
 }
 
 fn pre12(v: &[u64]) -> bool {
-    v[0] < 13 && v[1..].iter().all(|x| *x < 32)
+    v[0] < 17 && v[1..].iter().all(|x| *x < 32)
 }
 fn pre9(v: &[u64]) -> bool {
     v[0] < 9 && v[1..].iter().all(|x| *x < 12)
 }
 fn doms_clear() -> Vec<Vec<u64>> {
-    vec![range(13), range(4), range(4), vec![1, 3], range(4), range(4), range(3)]
+    vec![range(17), range(4), range(4), vec![1, 3], range(4), range(4), range(3)]
 }
 fn doms_clone() -> Vec<Vec<u64>> {
-    vec![range(13), range(4), range(4), vec![0, 2], vec![1], vec![3], range(8), range(4)]
+    vec![range(17), range(4), range(4), vec![0, 2], vec![1], vec![3], range(8), range(4)]
 }
 fn doms_reserve() -> Vec<Vec<u64>> {
-    vec![range(13), range(4), range(4), vec![2], range(4), vec![1, 3], range(32)]
+    vec![range(17), range(4), range(4), vec![2], range(4), vec![1, 3], range(32)]
 }
 fn doms_merge() -> Vec<Vec<u64>> {
-    vec![range(13), range(4), range(4), range(4), vec![2], vec![3], range(9), range(2)]
+    vec![range(17), range(4), range(4), range(4), vec![2], vec![3], range(9), range(2)]
 }
 fn doms_presize() -> Vec<Vec<u64>> {
-    vec![range(9), range(4), range(4), range(4), range(4), range(3), range(5), vec![2]]
+    vec![range(9), range(4), range(4), range(4), range(4), range(4), range(5), vec![2]]
 }
 fn doms_heap() -> Vec<Vec<u64>> {
     vec![range(13), range(6), range(6), range(6)]
@@ -739,15 +872,15 @@ pub fn harnesses() -> Vec<H> {
     let _ = cat;
     vec![
         H { name: "clear_twin", props: &["C08"], nargs: 7, pre: pre12, doms: doms_clear, run: run_clear, panic_ok: true,
-            bound: "13 compositions; history of 0..3 pushes (pool of 4-6 values), clear, 2 pushes compared step by step with a default twin (indices, reads, used bytes); two clear/refill cycles", kani: false },
+            bound: "17 compositions; history of 0..3 pushes (pool of 4-6 values), clear, 2 pushes compared step by step with a default twin (indices, reads, used bytes); two clear/refill cycles", kani: false },
         H { name: "clone_twin", props: &["C09"], nargs: 8, pre: pre12, doms: doms_clone, run: run_clone, panic_ok: true,
-            bound: "13 compositions; 2 pushes, then clone or clone_from into a destination pre-filled with 0..3 unrelated items; identical further push, then push on the original and clear+push on the copy; all issued indices re-read on both", kani: false },
+            bound: "17 compositions; 2 pushes, then clone or clone_from into a destination pre-filled with 0..3 unrelated items; identical further push, then push on the original and clear+push on the copy; all issued indices re-read on both", kani: false },
         H { name: "reserve_twin", props: &["C10", "C02"], nargs: 7, pre: pre12, doms: doms_reserve, run: run_reserve, panic_ok: true,
-            bound: "13 compositions; 3 pushes with reserve_items / reserve_regions (sources: unrelated + own twin / one unrelated, possibly narrower / one empty / none) before any subset of them, compared with a twin that never reserves", kani: false },
+            bound: "17 compositions; 3 pushes with reserve_items / reserve_regions (sources: unrelated + own twin / one unrelated, possibly narrower / one empty / none) before any subset of them, compared with a twin that never reserves", kani: false },
         H { name: "merge_twin", props: &["C10"], nargs: 8, pre: pre12, doms: doms_merge, run: run_merge, panic_ok: true,
-            bound: "13 compositions; merge_regions over 0, 1 or 3 source regions (empty / populated / repeated), optionally a second generation merged from its own ancestor; 2 pushes compared with a default twin", kani: false },
+            bound: "17 compositions; merge_regions over 0, 1 or 3 source regions (empty / populated / repeated), optionally a second generation merged from its own ancestor; 2 pushes compared with a default twin", kani: false },
         H { name: "presize_no_realloc", props: &["C17"], nargs: 8, pre: pre9, doms: doms_presize, run: run_presize, panic_ok: false,
-            bound: "8 vector-backed structural regions + FlatStack::merge_capacity; batch of 0..3 items; reserve_items / reserve_regions (on an empty region, one holding 1 item, or one filled until a storage has 0..2 spare bytes) / merge_regions, then pushing exactly the announced contents: every capacity reported by heap_size constant", kani: false },
+            bound: "8 vector-backed structural regions + FlatStack::merge_capacity over one or two source stacks (slice, mirror, option-of-mirror, owned, result regions); batch of 0..3 items; reserve_items / reserve_regions (on an empty region, one holding 1 item, or one filled until a storage has 0..2 spare bytes) / merge_regions (one source, or three sources whose contents add up), then pushing exactly the announced contents: every capacity reported by heap_size constant", kani: false },
         H { name: "heap_accounting", props: &["C18"], nargs: 4, pre: pre12, doms: doms_heap, run: run_heap, panic_ok: false,
             bound: "13 compositions; 3 pushes: used <= capacity for every pair, number of pairs, sum(used) >= payload + index entries, non-decreasing under push; after clear no payload accounted and no capacity shrank", kani: false },
     ]
@@ -801,10 +934,10 @@ fn run_long(v: &[u64]) {
     dispatch!(long_history, v)
 }
 fn pre_long(v: &[u64]) -> bool {
-    v[0] < 13 && v[1..].iter().all(|x| *x < 60)
+    v[0] < 17 && v[1..].iter().all(|x| *x < 60)
 }
 fn doms_long() -> Vec<Vec<u64>> {
-    let mut d = vec![range(13)];
+    let mut d = vec![range(17)];
     for _ in 0..12 {
         d.push(range(60));
     }
@@ -813,7 +946,7 @@ fn doms_long() -> Vec<Vec<u64>> {
 
 pub fn harnesses_long() -> Vec<H> {
     vec![H { name: "long_histories_full", props: &["C01", "C02", "C08", "C09", "C10"], nargs: 13, pre: pre_long, doms: doms_long, run: run_long, panic_ok: false,
-        bound: "13 compositions; seeded random histories of 12 operations (push of a pool value, clear, reserve_items+reserve_regions, clone, merge_regions) mirrored on a twin; all issued indices re-read after every operation; sampled, not exhaustive (thorough tier)", kani: false }]
+        bound: "17 compositions; seeded random histories of 12 operations (push of a pool value, clear, reserve_items+reserve_regions, clone, merge_regions) mirrored on a twin; all issued indices re-read after every operation; sampled, not exhaustive (thorough tier)", kani: false }]
 }
 
 // ---------------------------------------------------------------------------------------------------- C17: allocator calls
@@ -1103,15 +1236,15 @@ fn run_big_clear(v: &[u64]) {
     dispatch!(big_clear, v)
 }
 fn pre_big_clear(v: &[u64]) -> bool {
-    v[0] < 13 && v[1] < 4 && v[2] < 6
+    v[0] < 17 && v[1] < 4 && v[2] < 6
 }
 fn doms_big_clear() -> Vec<Vec<u64>> {
-    vec![range(13), range(4), vec![1, 2, 3]]
+    vec![range(17), range(4), vec![1, 2, 3]]
 }
 
 pub fn harnesses_alloc() -> Vec<H> {
     vec![H { name: "heap_big_clear", props: &["C18"], nargs: 3, pre: pre_big_clear, doms: doms_big_clear, run: run_big_clear, panic_ok: false,
-        bound: "13 compositions; 300 / 1100 / 2100 / 4200 pushes alternating two pool values, then clear: same number of (used, capacity) pairs, no capacity smaller than before", kani: false },
+        bound: "17 compositions; 300 / 1100 / 2100 / 4200 pushes alternating two pool values, then clear: same number of (used, capacity) pairs, no capacity smaller than before", kani: false },
     H { name: "presize_forms", props: &["C17"], nargs: 6, pre: pre_presize_forms, doms: doms_presize_forms, run: run_presize_forms, panic_ok: false,
         bound: "23 (region, ReserveItems form) pairs (four of them announced by reference and pushed in the owned Vec / array / String form): OwnedRegion (&[T;N], &[T], &Vec<T>, PushIter), StringRegion (&String, &str, &&str), SliceRegion<OwnedRegion> (&[T], &Vec<T>, &[T;N], read items), OptionRegion / ResultRegion / tuple (owned and by reference), Vec<T>, SliceRegion<MirrorRegion>; batch of 0..3 items from a pool of 4; target empty / one item / filled until 0..2 spare bytes; reserve_items(batch) then pushing the batch in the same form: every capacity constant", kani: false },
     H { name: "alloc_forms", props: &["C17"], nargs: 2, pre: pre_alloc_forms, doms: doms_alloc_forms, run: run_alloc_forms, panic_ok: false,
